@@ -19,7 +19,26 @@ fn view(d: &FilterDump) -> String {
 }
 
 /// rules built to share masks (so that they are fused) and to differ in exactly one aspect
+/// Group-size boundaries: n token-less rules (all in bucket 0) with one option set, so that one
+/// fusion group has exactly n members (31..34, 63..66, 97).
+fn big_group(r: &mut Rng) -> Vec<String> {
+    let n = r.pick(&[31usize, 32, 33, 34, 63, 64, 65, 66, 97]);
+    let o = r.pick(&["", "$image", "$script,third-party"]);
+    let exc = if r.chance(1, 6) { "@@" } else { "" };
+    let letters = ["a", "b", "c", "d", "e", "f", "g", "h", "i", "j"];
+    let mut v = vec![];
+    'outer: for x in letters {
+        for y in letters {
+            if v.len() >= n { break 'outer; }
+            v.push(format!("{}/{}/{}{}{}", exc, x, y, r.pick(&["", "/", "."]), o));
+        }
+    }
+    v
+}
 fn fusable(r: &mut Rng) -> Vec<String> {
+    if r.chance(1, 25) {
+        return big_group(r);
+    }
     let n = r.range(2, 7);
     let opts: &[&str] = &["", "$script", "$image,third-party", "$tag=t1", "$tag=t2", "$important", "$match-case"];
     let o1 = r.pick(opts);
@@ -119,6 +138,26 @@ fn observe(b: &Blocker, rs: &ResourceStorage, req: &Request) -> Obs {
 fn parse_all(lines: &[String]) -> Vec<NetworkFilter> {
     lines.iter().filter_map(|l| parse_net(l)).collect()
 }
+/// Blocker::new on a prefix, optimize(), then the rest through add_filter (lists without $badfilter,
+/// which add_filter refuses): a live engine that was optimised and then extended.
+fn blocker_optimize_then_add(lines: &[String], tags: &[&str], cut: usize) -> Option<Blocker> {
+    if lines.iter().any(|l| l.contains("badfilter")) {
+        return None;
+    }
+    let mut b = Blocker::new(parse_all(&lines[..cut]), &BlockerOptions { enable_optimizations: false });
+    b.optimize();
+    let mut seen: std::collections::HashSet<u64> = parse_all(&lines[..cut]).iter().map(|f| f.id).collect();
+    for f in parse_all(&lines[cut..]) {
+        let fresh = seen.insert(f.id);
+        let res = b.add_filter(f);
+        if fresh && res.is_err() {
+            return None.or_else(|| { REJECTED.with(|c| c.set(true)); None });
+        }
+    }
+    b.use_tags(tags);
+    Some(b)
+}
+thread_local! { static REJECTED: std::cell::Cell<bool> = std::cell::Cell::new(false); }
 fn blockers(lines: &[String], tags: &[&str]) -> (Blocker, Blocker, Blocker) {
     let mut off = Blocker::new(parse_all(lines), &BlockerOptions { enable_optimizations: false });
     let mut on = Blocker::new(parse_all(lines), &BlockerOptions { enable_optimizations: true });
@@ -152,7 +191,21 @@ fn main() {
         let (off, on, live) = blockers(&lines, &tr);
         let (o0, o1, o2) = (observe(&off, &rs, &req), observe(&on, &rs, &req), observe(&live, &rs, &req));
         println!("unoptimized: {:?}\noptimized:   {:?}\noptimize():  {:?}", o0, o1, o2);
-        if o0 != o1 || o0 != o2 {
+        let mut ext_bad = false;
+        if let Some(cut) = rp["cut"].as_u64() {
+            REJECTED.with(|c| c.set(false));
+            let ext = blocker_optimize_then_add(&lines, &tr, (cut as usize).min(lines.len()));
+            if REJECTED.with(|c| c.get()) {
+                println!("after optimize() on the first {} rules, add_filter refused a rule that was never added", cut);
+                ext_bad = true;
+            }
+            if let Some(x) = ext {
+                let o3 = observe(&x, &rs, &req);
+                println!("optimize() on the first {} rules + add_filter: {:?}", cut, o3);
+                ext_bad = ext_bad || o3 != o0;
+            }
+        }
+        if o0 != o1 || o0 != o2 || ext_bad {
             println!("VIOLATION property=C05 replay={}", p.display());
             std::process::exit(1);
         }
@@ -220,8 +273,21 @@ fn main() {
                     );
                 }
             }
-            for _ in 0..3 {
-                let Some((mut url, src, ty, mut req)) = clean_request(&mut r, &lines) else { continue };
+            // a live blocker that was optimised and then extended through add_filter
+            let cut = r.below(lines.len() + 1);
+            REJECTED.with(|c| c.set(false));
+            let ext = blocker_optimize_then_add(&lines, tags, cut);
+            if REJECTED.with(|c| c.get()) {
+                sm.failure(None, "after optimize(), add_filter refused a rule that was never added (FilterExists)", json!({"rules": lines, "tags": tags, "cut": cut, "url": "https://x.com/", "source": "https://a.com/", "type": "script"}));
+            }
+            let nq = if lines.len() > 30 { lines.len() } else { 3 };
+            for qi in 0..nq {
+                let Some((mut url, src, ty, mut req)) = (if lines.len() > 30 {
+                    // big group: one URL per member
+                    let p = lines[qi].trim_start_matches("@@").split('$').next().unwrap_or("").to_string();
+                    let url = format!("https://{}{}", r.pick(gen::HOSTS), p);
+                    Request::new(&url, "https://a.com/page", "image").ok().map(|q| (url, "https://a.com/page".to_string(), "image", q))
+                } else { clean_request(&mut r, &lines) }) else { continue };
                 if !url.contains('?') && !url.contains('#') && lines.iter().any(|l| l.contains("removeparam=")) {
                     url = format!("{}?{}={}&{}={}", url, r.pick(gen::PARAMS), r.pick(gen::VOCAB), r.pick(gen::PARAMS), r.pick(gen::VOCAB));
                     let Ok(q) = Request::new(&url, &src, ty) else { continue };
@@ -229,6 +295,13 @@ fn main() {
                 }
                 sm.oracle_evaluations += 1;
                 let (o0, o1, o2) = (observe(&off, &rs, &req), observe(&on, &rs, &req), observe(&live, &rs, &req));
+                if let Some(x) = &ext {
+                    let o3 = observe(x, &rs, &req);
+                    if o3 != o0 && !has_bad_regex(&lines) {
+                        sm.failure(None, &format!("unoptimized {:?} / optimize() on the first {} rules, then add_filter of the rest {:?}", o0.v, cut, o3.v),
+                            json!({"rules": lines, "tags": tags, "cut": cut, "url": url, "source": src, "type": ty}));
+                    }
+                }
                 if o0 != o1 || o0 != o2 {
                     let class = if has_bad_regex(&lines) { Some("F27_uncompilable_regex_in_fused_set") } else { None };
                     sm.failure(class, &format!("unoptimized {:?} / built optimized {:?} / after optimize() {:?}", o0.v, o1.v, o2.v),
